@@ -32,7 +32,7 @@ def text_ids():
     return {m["name"]: m["id"] for m in msgs if m["id"] is not None}
 
 
-def make_conn(noise: bool, rng):
+def make_conn(noise: bool, rng, debug: bool = False):
     fh.loop()
     dev = None
     psk = noisedev.new_psk(rng) if noise else None
@@ -41,7 +41,7 @@ def make_conn(noise: bool, rng):
         zeroconf_manager=ZeroconfManager(), noise_psk=noisedev.NoiseDevice.b64(psk) if noise else None,
         expected_name=None,
     )
-    conn = APIConnection(params, None, False, "verif")
+    conn = APIConnection(params, None, debug, "verif")   # debug logging on: a different code path in both writers
     tr = fh.FakeTransport()
     if noise:
         helper = APINoiseFrameHelper(connection=conn, noise_psk=params.noise_psk, expected_name=None,
@@ -100,11 +100,11 @@ def show(ps):
     return "[" + " ".join(f"{t}:{len(p)}:{phash(p)}" for t, p in ps) + "]"
 
 
-def run_session(ck: Check, noise: bool, ids, stats):
-    conn, tr, dev = make_conn(noise, ck.rng)
+def run_session(ck: Check, noise: bool, ids, stats, debug: bool = False):
+    conn, tr, dev = make_conn(noise, ck.rng, debug)
     batches = gen_batches(ck, noise)
     lines, expect = [], []
-    framing = "noise" if noise else "plain"
+    framing = ("noise" if noise else "plain") + ("+debug" if debug else "")
     nonce = 0
     for bi, batch in enumerate(batches):
         truth = [(ids.get(type(m).__name__), m.SerializeToString()) for m in batch]
@@ -200,10 +200,11 @@ def run(ck: Check):
     stats = {"evaluations": 0, "distinct": set()}
     all_lines, all_expect = [], []
     for noise in (False, True):
-        r = run_session(ck, noise, ids, stats)
-        if r:
-            all_lines += r[0]
-            all_expect += r[1]
+        for debug in (False, True):
+            r = run_session(ck, noise, ids, stats, debug)
+            if r:
+                all_lines += r[0]
+                all_expect += r[1]
     oversize(ck, ids, stats, all_lines, all_expect)
     dis = 0
     if ck.driver_ok:
